@@ -105,6 +105,23 @@ EXPRS += [
     ("expr", "src/collections/vec.rs", "drain", ("field", "tail_len", 1), "vec_drain_tail_len"),
     ("expr", "src/collections/string.rs", "drain", ("let", "start", 1), "string_drain_start"),
     ("expr", "src/collections/string.rs", "drain", ("let", "end", 1), "string_drain_end"),
+    # String: remove / insert_bytes / pop / truncate (`ch`, the decoded character, and `bytes`, the
+    # inserted text, are inputs: records carrying len_utf8 / len)
+    ("expr", "src/collections/string.rs", "remove", ("let", "next", 1), "string_remove_next", ("ch",)),
+    ("expr", "src/collections/string.rs", "remove", ("arg", "copy", 1, 0), "string_remove_copy_src", ("ch",)),
+    ("expr", "src/collections/string.rs", "remove", ("arg", "copy", 1, 1), "string_remove_copy_dst", ("ch",)),
+    ("expr", "src/collections/string.rs", "remove", ("arg", "copy", 1, 2), "string_remove_copy_len", ("ch",)),
+    ("expr", "src/collections/string.rs", "remove", ("arg", "set_len", 1, 0), "string_remove_new_len", ("ch",)),
+    ("expr", "src/collections/string.rs", "insert_bytes", ("arg", "reserve", 1, 0), "string_insert_reserve"),
+    ("expr", "src/collections/string.rs", "insert_bytes", ("arg", "copy", 1, 0), "string_insert_shift_src"),
+    ("expr", "src/collections/string.rs", "insert_bytes", ("arg", "copy", 1, 1), "string_insert_shift_dst"),
+    ("expr", "src/collections/string.rs", "insert_bytes", ("arg", "copy", 1, 2), "string_insert_shift_len"),
+    ("expr", "src/collections/string.rs", "insert_bytes", ("arg", "copy", 2, 0), "string_insert_write_src"),
+    ("expr", "src/collections/string.rs", "insert_bytes", ("arg", "copy", 2, 1), "string_insert_write_dst"),
+    ("expr", "src/collections/string.rs", "insert_bytes", ("arg", "copy", 2, 2), "string_insert_write_len"),
+    ("expr", "src/collections/string.rs", "insert_bytes", ("arg", "set_len", 1, 0), "string_insert_new_len"),
+    ("expr", "src/collections/string.rs", "pop", ("let", "newlen", 1), "string_pop_new_len", ("ch",)),
+    ("expr", "src/collections/string.rs", "truncate", ("if", 1), "string_truncate_in_range"),
 ]
 # statements around those expressions that have no value to translate: their text, whitespace-free,
 # must occur in the function (a rewrite of them fails the obligation src_frames_ok)
@@ -122,6 +139,28 @@ FRAMES = [
      "ptr::write(footer_ptr,ChunkFooter{data,layout,prev:Cell::new(prev),ptr,allocated_bytes,},);Some(NonNull::new_unchecked(footer_ptr))"),
     ("src/lib.rs", "new_chunk", "new_chunk_asks_allocator", "letdata=alloc(layout);letdata=NonNull::new(data)?;"),
     ("src/lib.rs", "reset", "reset_empty_is_noop", "ifself.current_chunk_footer.get().as_ref().is_empty(){return;}"),
+    # Vec: what surrounds the located expressions of insert / remove
+    ("src/collections/vec.rs", "insert", "vec_insert_grows_then_writes",
+     "iflen==self.buf.cap(){self.reserve(1);}unsafe{{letp=self.as_mut_ptr().add(index);ptr::copy(p,p.offset(1),len-index);ptr::write(p,element);}self.set_len(len+1);}"),
+    ("src/collections/vec.rs", "remove", "vec_remove_reads_then_closes",
+     "unsafe{letret;{letptr=self.as_mut_ptr().add(index);ret=ptr::read(ptr);ptr::copy(ptr.offset(1),ptr,len-index-1);}self.set_len(len-1);ret}"),
+    # String: the boundary assertions in front of the byte moves, and what the moves are made with
+    ("src/collections/string.rs", "truncate", "string_truncate_checked",
+     "{assert!(self.is_char_boundary(new_len));self.vec.truncate(new_len)}"),
+    ("src/collections/string.rs", "insert", "string_insert_checked",
+     "assert!(self.is_char_boundary(idx));letmutbits=[0;4];letbits=ch.encode_utf8(&mutbits).as_bytes();unsafe{self.insert_bytes(idx,bits);}"),
+    ("src/collections/string.rs", "insert_str", "string_insert_str_checked",
+     "assert!(self.is_char_boundary(idx));unsafe{self.insert_bytes(idx,string.as_bytes());}"),
+    ("src/collections/string.rs", "split_off", "string_split_off_checked",
+     "assert!(self.is_char_boundary(at));letother=self.vec.split_off(at);unsafe{String::from_utf8_unchecked(other)}"),
+    ("src/collections/string.rs", "remove", "string_remove_decodes_at_idx",
+     "letch=matchself[idx..].chars().next(){Some(ch)=>ch,None=>panic!("),
+    ("src/collections/string.rs", "remove", "string_remove_moves",
+     "unsafe{ptr::copy(self.vec.as_ptr().add(next),self.vec.as_mut_ptr().add(idx),len-next,);self.vec.set_len(len-(next-idx));}ch}"),
+    ("src/collections/string.rs", "pop", "string_pop_last_char",
+     "letch=self.chars().rev().next()?;letnewlen=self.len()-ch.len_utf8();unsafe{self.vec.set_len(newlen);}Some(ch)"),
+    ("src/collections/string.rs", "insert_bytes", "string_insert_bytes_moves",
+     "self.vec.reserve(amt);ptr::copy(self.vec.as_ptr().add(idx),self.vec.as_mut_ptr().add(idx+amt),len-idx,);ptr::copy(bytes.as_ptr(),self.vec.as_mut_ptr().add(idx),amt);self.vec.set_len(len+amt);"),
 ]
 # methods of `self` that are functions of the table when called with one argument
 SELF_FNS = {"is_last_allocation"}
@@ -443,7 +482,7 @@ class Parser:
                         raise Unsupported("turbofish")
                 if self.peek() == "(":
                     a = self.args()
-                    if len(a) == 0 and e == '(EVar "self")' and m == "as_ptr":
+                    if len(a) == 0 and e in ('(EVar "self")', '(EMeth0 (EVar "self") "vec")') and m == "as_ptr":
                         # the buffer pointer of the collection itself (as_ptr on anything else is the identity
                         # on addresses): the same field as as_mut_ptr
                         e = "(EMeth0 %s %s)" % (e, q("as_mut_ptr"))
@@ -1083,10 +1122,14 @@ def emit(repo):
             ok = bool(found) and text in re.sub(r"\s+", "", found[1])
         except OSError:
             ok = False
-        frames.append((label, ok))
-    out.append("Definition src_frames : list (string * bool) := [")
-    out.append(";\n".join("  (%s, %s)" % (q(l), "true" if ok else "false") for l, ok in frames))
-    out.append("].")
+        frames.append((label, ok, path))
+    # one list per part of the crate, so that a rewrite in one part fails only that part's obligation
+    for name, pred in (("src_frames", lambda p: p == "src/lib.rs"),
+                       ("src_frames_vec", lambda p: p in ("src/collections/vec.rs", "src/collections/raw_vec.rs")),
+                       ("src_frames_string", lambda p: p == "src/collections/string.rs")):
+        out.append("Definition %s : list (string * bool) := [" % name)
+        out.append(";\n".join("  (%s, %s)" % (q(l), "true" if ok else "false") for l, ok, pth in frames if pred(pth)))
+        out.append("].")
     out.append("Definition src_consts : list (string * expr) := [")
     out.append(";\n".join("  (%s, %s)" % (q(n), t) for n, t in consts))
     out.append("].")
